@@ -12,7 +12,8 @@ struct LitForm {
 // W_GT2 is only used by literal form 13 (WITH(_1 > 2))
 constexpr int W_GT2 = 100;
 constexpr int NLITNAMED = 16;   // forms 0..15 are NAMED_ sites (lit.cpp)
-constexpr int NLITALL = 24;     // forms 16..23 are scoped sites (scoped.cpp)
+constexpr int NLITALL = 30;     // forms 16..29 are scoped sites (scoped.cpp)
+constexpr int NLITNAMEDV = 4;   // forms 30..33 are NAMED_ variadic spellings (lit.cpp)
 
 inline const LitForm* lit_forms() {
   static const LitForm f[] = {
@@ -41,6 +42,18 @@ inline const LitForm* lit_forms() {
     /*21*/ {F_f, 0, 2, {M_WILD, 0}, {M_WILD, 0}, W_GT2, X_OFF, true, "sm.f(_)"},
     /*22*/ {F_v, 1, 1, {M_WILD, 0}, {M_WILD, 0}, W_OFF, X_LOG, false, "sm.v(_)"},
     /*23*/ {F_f, 1, 1, {M_NE, 0}, {M_WILD, 0}, W_OFF, X_OFF, true, "sm.f(ne(0))"},
+    // the variadic spellings (documented in docs/Backward.md, usable at every language level): clauses are macro arguments
+    /*24*/ {F_v, 0, 0, {M_WILD, 0}, {M_WILD, 0}, W_GT2, X_OFF, false, "sm.v(_)"},            // FORBID_CALL_V(sm, v(_), .WITH(_1 > 2))
+    /*25*/ {F_f, 1, 1, {M_WILD, 0}, {M_WILD, 0}, W_OFF, X_OFF, true, "sm.f(_)"},             // REQUIRE_CALL_V(sm, f(_), .RETURN(...))
+    /*26*/ {F_f, 0, INF, {M_GE, 2}, {M_WILD, 0}, W_OFF, X_OFF, true, "sm.f(ge(2))"},         // ALLOW_CALL_V(sm, f(ge(2)), .RETURN(...))
+    /*27*/ {F_f, 0, 0, {M_VALUE, 3}, {M_WILD, 0}, W_OFF, X_OFF, false, "sm.f(3)"},           // FORBID_CALL_V(sm, f(3))
+    /*28*/ {F_f, 2, 2, {M_LT, 3}, {M_WILD, 0}, W_OFF, X_LOG, true, "sm.f(lt(3))"},           // REQUIRE_CALL_V(sm, f(lt(3)), .TIMES(2) .SIDE_EFFECT(...) .RETURN(...))
+    /*29*/ {F_v, 0, 0, {M_WILD, 0}, {M_WILD, 0}, W_OFF, X_OFF, false, "sm.v(_)"},            // FORBID_CALL_V(sm, v(_))
+    // NAMED_ variadic spellings (lit.cpp)
+    /*30*/ {F_v, 0, 0, {M_WILD, 0}, {M_WILD, 0}, W_GT2, X_OFF, false, ".v(_)"},              // NAMED_FORBID_CALL_V(m, v(_), .WITH(_1 > 2))
+    /*31*/ {F_f, 2, 2, {M_WILD, 0}, {M_WILD, 0}, W_OFF, X_OFF, true, ".f(_)"},               // NAMED_REQUIRE_CALL_V(m, f(_), .TIMES(2) .RETURN(...))
+    /*32*/ {F_f, 0, INF, {M_LE, 1}, {M_WILD, 0}, W_OFF, X_OFF, true, ".f(le(1))"},           // NAMED_ALLOW_CALL_V(m, f(le(1)), .RETURN(...))
+    /*33*/ {F_f, 0, 0, {M_VALUE, 4}, {M_WILD, 0}, W_OFF, X_OFF, false, ".f(4)"},             // NAMED_FORBID_CALL_V(m, f(4))
   };
   return f;
 }
